@@ -48,7 +48,9 @@ def sdl():
             args.append(f"  e{s}{i}(v: {st.replace('T', s)}): Int")
             args.append(f"  x{s}{i}(inp: I{s}{i}): Int")
     tf.append("  q: Q")
-    return ("scalar B\nscalar P\nscalar S\nscalar DT\nscalar U\nscalar Q\n"
+    args.append("  up(f: Upload!, dt: DT, inp: ISDT): Int")
+    ins.append("input ISDT { dt: DT, s: S }")
+    return ("scalar B\nscalar P\nscalar S\nscalar DT\nscalar U\nscalar Q\nscalar Upload\n"
             "interface Animal { id: ID! }\ntype Cat implements Animal { id: ID! born: P seen: [B!] }\ntype Dog implements Animal { id: ID! born: P }\ntype Fish implements Animal { id: ID! }\n"
             "union Pet = Cat | Dog\n"
             "type Query {\n  t: Obj!\n  zoo: [Animal!]!\n  zooOpt: [Animal]\n  star: Animal\n  pets: [[Pet!]]!\n" + "\n".join(args) + "\n}\n"
@@ -63,6 +65,7 @@ def ops():
             out.append(f"query A{s}{i}($v: {st.replace('T', s)}) {{ e{s}{i}(v: $v) }}")
             out.append(f"query X{s}{i}($inp: I{s}{i}) {{ x{s}{i}(inp: $inp) }}")
     # Q has the same Python type as P but its own parse function: both occur in one operation and in one fragment
+    out.append("query Up($f: Upload!, $dt: DT, $inp: ISDT) { up(f: $f, dt: $dt, inp: $inp) }")
     sel = "{ __typename id ... on Cat { born seen } ... on Dog { born } }"
     out.append(f"query Zoo {{ zoo {sel} zooOpt {sel} star {sel} pets {{ __typename ... on Cat {{ born }} ... on Dog {{ born }} }} }}")
     out.append("query Nest { t { q rP0 sub { rB0 subs { rB2 ...F } } } }")
@@ -292,6 +295,47 @@ def falsy_case(which: int):
         expected = {"inp": {"f": ""}}
     body = json.loads(c.http_client.calls[0]["content"])
     return body["variables"] == expected and list(SC.CALLS) == [("ser_s", "")], f"falsy #{which}: sent {body['variables']} calls {SC.CALLS}"
+
+
+def upload_case(which: int):
+    """custom scalars travel the same way when the request is multipart (a variable holds an Upload): a type-only scalar through
+    pydantic's JSON encoding, a scalar with serialize through serialize - top level and inside an input model"""
+    import datetime
+    import io
+
+    del SC.CALLS[:]
+    c = new_client()
+    base = importlib.import_module("p07.base_model")
+    f = base.Upload(filename="a.txt", content=io.BytesIO(b"x"), content_type="text/plain")
+    dt = datetime.datetime(2020, 1, 2, 3, 4, 5)
+    kwargs = [{"dt": dt}, {"inp": PKG.ISDT(s="s1")}, {"inp": PKG.ISDT(dt=dt, s="s2")}, {}][which]
+    try:
+        getattr(c, META["Up"].name)(f, **kwargs)
+    except Exception:
+        if not c.http_client.calls:
+            raise
+    call = c.http_client.calls[0]
+    if "data" not in call:
+        return False, f"upload #{which}: not multipart: {sorted(call)}"
+    ops = json.loads(call["data"]["operations"])
+    want = [{"f": None, "dt": "2020-01-02T03:04:05"}, {"f": None, "inp": {"s": "S1"}}, {"f": None, "inp": {"dt": "2020-01-02T03:04:05", "s": "S2"}}, {"f": None}][which]
+    want_calls = [[], [("ser_s", "s1")], [("ser_s", "s2")], []][which]
+    return ops["variables"] == want and list(SC.CALLS) == want_calls, f"upload #{which}: sent {ops['variables']} calls {SC.CALLS}"
+
+
+def check_scalars_in_multipart(which: int) -> bool:
+    """
+    post: _
+    """
+    if SETUP_ERROR:
+        return False
+    w = pick(which, 4)
+    with NoTracing():
+        try:
+            ok, _ = upload_case(w)
+        except Exception:
+            ok = False
+    return ok
 
 
 def check_falsy_values(which: int) -> bool:
